@@ -92,7 +92,10 @@ def run_impl(orb, c):
     O._get_root, O._get_max_parab, orb.get_observer_look = root, parab, look
     try:
         with common.time_limit(120):
-            res = orb.get_next_passes(c["start"], c["length"], c["lon"], c["lat"], c["alt"], horizon=c["horizon"])
+            if c["horizon"] == 0:        # the documented default: horizon at 0 deg when the argument is omitted
+                res = orb.get_next_passes(c["start"], c["length"], c["lon"], c["lat"], c["alt"])
+            else:
+                res = orb.get_next_passes(c["start"], c["length"], c["lon"], c["lat"], c["alt"], horizon=c["horizon"])
         rec["result"], rec["error"] = res, None
     except common.Timeout as e:
         rec["result"], rec["error"] = None, "Timeout: %s" % e
